@@ -47,7 +47,7 @@ def register(reg):
 
     SORTED = 'forall(lambda i=Int, j=Int: implies(0 <= i and i <= j and j < len(self.tx_counts), self.tx_counts[i] <= self.tx_counts[j]))'
     reg.contract(DBK + '.fs_tx_hash', params={'tx_num': Int}, requires=[('cumulative-counts-sorted', SORTED), 'tx_num >= 0'],
-                 raises={}, assumes_inv=False, maintains_inv=False,
+                 returns=Tuple(Opt(KBytes), Int), raises={}, assumes_inv=False, maintains_inv=False,
                  ensures=[('height', 'let(lambda h=result[1]: 0 <= h and h <= len(self.tx_counts) and '
                                      '(h == 0 or self.tx_counts[h - 1] <= tx_num) and (h == len(self.tx_counts) or tx_num < self.tx_counts[h]))'),
                           ('none-above-db-height', 'is_none(result[0]) == (result[1] > self.state.height)'),
